@@ -75,7 +75,7 @@ def execOps (cfg : Config) (u : Nat → Rat) : List String → State → List St
       | .error _ => execOps cfg u ops s ("ERR rate" :: acc)
     else execOps cfg u ops s ("bad" :: acc)
 
-def handleSim : List String → Option String
+def handle : List String → Option String
   | ["trials", dt, h, lx, lz, rate, pairs] =>
     if !rateOk (parseRat rate) then some "ERR rate" else
     let c := mats h lx lz
@@ -235,7 +235,7 @@ def showRuns : Except Err (List RunOut) → String
   | .error e => showErr e
   | .ok rs => " ".intercalate (s!"n={rs.length}" :: rs.map showRunOut)
 
-def handleSpec : List String → Option String
+def handle : List String → Option String
   | ["sims", spec] =>
     match (parsePV spec).bind toSpec with
     | none => some "bad-spec"
@@ -271,3 +271,9 @@ def handleSpec : List String → Option String
   | _ => none
 
 end Drv.Spec
+
+/-- the handler `Driver/Main.lean` registers for this file (C11 ops, then C13 ops) -/
+def Drv.handleSim (toks : List String) : Option String :=
+  match Drv.Sim.handle toks with
+  | some r => some r
+  | none => Drv.Spec.handle toks
